@@ -16,13 +16,15 @@ Inductive eff :=
 | ESendAll (m : message)             (* AbstractServer::sendMessageToAll *)
 | ESig (obj sig : N) (p : payload)   (* a signal emitted to the application *)
 | EStart (tid : N) (ms : Z)          (* QTimer::start: (re)arms the single-shot timer *)
-| EStop (tid : N).
+| EStop (tid : N)
+| ELook (rs : list record).        (* result of a cache lookup requested by the script *)
 
 Inductive out :=
 | OSend (t : Z) (m : message)
 | OSendAll (t : Z) (m : message)
 | OSignal (t : Z) (obj sig : N) (p : payload)
 | OPoll (obj : N) (flag : bool) (b : bstr)
+| OLook (rs : list record)
 | OOutOfFuel.
 
 Inductive event (api : Type) := EvMsg (m : message) | EvTimer (tid : N) | EvApi (a : api).
@@ -72,6 +74,7 @@ Section Sim.
         | ESig ob sg p => let '(tm', sq', o) := apply_effs now tm seq es' in (tm', sq', OSignal now ob sg p :: o)
         | EStart tid ms => apply_effs now (tm_remove tid tm ++ [(tid, now + ms, (seq + 1)%N)]) (seq + 1)%N es'
         | EStop tid => apply_effs now (tm_remove tid tm) seq es'
+        | ELook rs => let '(tm', sq', o) := apply_effs now tm seq es' in (tm', sq', OLook rs :: o)
         end
     end.
 
